@@ -144,7 +144,18 @@ pub fn gen_case(prop: &str, seed: u64, idx: u64, tier: &str) -> AnyCase {
             return AnyCase::Multi(pipeprops::gen_c11(&mut rng, tier));
         }
         "C15" => return AnyCase::Merge(clisim::gen_merge(&mut rng)),
-        "C16" => return AnyCase::Cli(clisim::gen_cli(&mut rng, prop)),
+        "C16" => {
+            if idx % 10 == 9 {
+                // the converters' multi-threaded library entry points over SimRead with one hard read error (F10):
+                // the conversion may fail, it must not report success with records missing
+                let mut cc = clisim::gen_conv(&mut rng);
+                if cc.hard.is_none() {
+                    cc.hard = Some(rng.below(60) as u32);
+                }
+                return AnyCase::Conv(cc);
+            }
+            return AnyCase::Cli(clisim::gen_cli(&mut rng, prop));
+        }
         "C17" => return AnyCase::Avg(clisim::gen_avg(&mut rng)),
         "C13" => return AnyCase::Pipe(pipeprops::gen_c13(&mut rng)),
         "C14" => return AnyCase::Enum(pipeprops::gen_c14(&mut rng)),
